@@ -476,6 +476,13 @@ func runC06(w *W) {
 			// a lookup that does not report the damage must not hand out a node outside the input
 			c.guarded("Value.Field+accessor", len(b), func() {
 				v := generic.NewValue(c.desc, b)
+				// field id 0 (what a failed step of the field iterator reports) whether declared or not
+				for _, g := range []generic.Node{v.Node.Field(0), v.Field(0).Node} {
+					if !g.IsError() {
+						g.Raw()
+						g.Int()
+					}
+				}
 				for _, f := range c.rootT.St.Fields {
 					for k := 0; k < 3; k++ {
 						var g generic.Node
